@@ -51,7 +51,7 @@ theorem start_one (s : St) (hk : s.k < s.n) :
     ∃ s', s.run [.submit .ok, .adv s.tasks.length, .adv s.tasks.length, .adv s.tasks.length,
                  .adv s.tasks.length] = some s' ∧
       s'.running = s.running + 1 ∧ s'.k = s.k + 1 ∧ s'.n = s.n := by
-  let t1 : Task := { pc := .running, outcome := .ok, starts := 1 }
+  let t1 : Task := { pc := .running, outcome := .ok, starts := 1, hid := s.cur }
   let s1 : St := { s with k := s.k + 1, wg := s.wg + 1, tasks := s.tasks ++ [t1] }
   refine ⟨s1, ?_, ?_, rfl, rfl⟩
   · simp [St.run, St.step, St.adv, hk, s1, t1]
